@@ -39,7 +39,10 @@ FLOORS = {"values_compared": (6000, 100000), "missing_key_failures": (800, 15000
 SHARDS_QUICK = 4
 
 PIECES = ["lit", "-", "{A}", "{B}", "{C}", "{S.X}", "{S.Y}", "{T.X}", "{L.0}", "{L.1}", "{D}", "{:p:}", "{:q:}", "\\{esc\\}", "x\\{y\\}z"]
-VALS = [0, 1, -1, True, None, "", "a", "b", "{A}", "{B}", "{C}", "p{T.X}q", "{S.Y}", "{S.X}-{B}", "{L.0}", [1, "{B}"], ["a"], "{Q}"]
+VALS = [0, 1, -1, True, None, "", "a", "b", "{A}", "{B}", "{C}", "p{T.X}q", "{S.Y}", "{S.X}-{B}", "{L.0}", [1, "{B}"], ["a"], "{Q}",
+        # containers mixing templated members and nested sections / lists, in both orders (every member must be walked)
+        {"p": "{B}", "q": {"r": "{C}"}}, ["{B}", {"r": "{C}"}], {"q": {"r": "{C}"}, "p": "{B}"}, [["{D}"], {"k": ["{B}", 2]}, "{C}"],
+        {"u": {"v": {"w": "{B}"}}, "x": ["{C}", {"y": "{D}"}]}]
 
 
 def gen_text(r):
@@ -66,28 +69,62 @@ def gen_options(r):
     return {}
 
 
-def brace_hazard(o):
-    """A dict or a string with escaped braces referenced from inside another string (documented restriction)."""
-    def strings(v):
-        if isinstance(v, dict):
-            for x in v.values():
-                yield from strings(x)
-        elif isinstance(v, list):
-            for x in v:
-                yield from strings(x)
-        elif isinstance(v, str):
-            yield v
+def has_dict(v):
+    return isinstance(v, dict) or (isinstance(v, list) and any(has_dict(x) for x in v))
 
-    for s in strings(o):
+
+def _all_strings(v):
+    if isinstance(v, dict):
+        for x in v.values():
+            yield from _all_strings(x)
+    elif isinstance(v, list):
+        for x in v:
+            yield from _all_strings(x)
+    elif isinstance(v, str):
+        yield v
+
+
+def reaches(k, o, pred, depth=0):
+    """Does the (transitive) textual substitution of key k pull in a value satisfying pred?"""
+    t = U.lookup(k, o)
+    if t is U.ABSENT or depth > 8:
+        return False
+    if pred(t):
+        return True
+    return any(reaches(k2, o, pred, depth + 1) for s in _all_strings(t) for k2 in U.template_keys(s))
+
+
+def brace_hazard(o, texts=()):
+    """A dict (at any depth) or a string with escaped braces pulled into the middle of another string: its string form
+    contains braces, which the library re-resolves (documented restriction / recorded finding)."""
+    for s in list(_all_strings(o)) + list(texts):
         keys = U.template_keys(s)
         whole = len(keys) == 1 and s == "{" + keys[0] + "}"
         for k in keys:
-            t = U.lookup(k, o)
-            if isinstance(t, dict) and not whole:
+            if not whole and reaches(k, o, has_dict):
                 return True
-            if isinstance(t, str) and "\\" in t:
+            if reaches(k, o, lambda t: isinstance(t, str) and "\\" in t):
                 return True
     return False
+
+
+def program_texts(program):
+    out = []
+
+    def walk(x):
+        if isinstance(x, dict):
+            if x.get("k") == "tmpl":
+                out.append(x["text"])
+            if x.get("dk") in ("tmpl", "const") and isinstance(x.get("dv"), str):
+                out.append(x["dv"])
+            for v in x.values():
+                walk(v)
+        elif isinstance(x, list):
+            for v in x:
+                walk(v)
+
+    walk(program)
+    return out
 
 
 def gen_subject(r):
@@ -271,8 +308,13 @@ def run(ctx):
     for i in range(n):
         r = case_rng(ctx, i)
         program = gen_subject(r)
+        texts = program_texts(program)
         for _ in range(3):
-            case(ctx, program, gen_options(r))
+            o = gen_options(r)
+            if brace_hazard(o, texts):
+                ctx.count("skipped_dict_mid_string")
+                continue
+            case(ctx, program, o)
 
 
 def replay(ctx, rep):
